@@ -59,6 +59,7 @@ type TypeSpec struct {
 	Hypotheses []*Clause // assumed at method entry, never checked (stated in the trusted base)
 	Flags      map[string]bool
 	GuardedBy  map[string]string // field -> mutex field
+	Immutable  map[string]string // field -> pure spec function (declared) giving its value
 	File       string
 	Line       int
 }
@@ -256,7 +257,7 @@ func (c *Contracts) loadFile(path string) error {
 			}
 		case "type":
 			name := strings.TrimPrefix(strings.Fields(rest)[0], "*")
-			ts := &TypeSpec{Pkg: pkg, Name: name, Models: map[string]*Clause{}, Flags: map[string]bool{}, GuardedBy: map[string]string{}, File: path, Line: b.head.line}
+			ts := &TypeSpec{Pkg: pkg, Name: name, Models: map[string]*Clause{}, Flags: map[string]bool{}, GuardedBy: map[string]string{}, Immutable: map[string]string{}, File: path, Line: b.head.line}
 			for _, s := range b.subs {
 				cl, err := parseClause(s, path)
 				if err != nil {
@@ -283,6 +284,13 @@ func (c *Contracts) loadFile(path string) error {
 					ts.Invariants = append(ts.Invariants, cl)
 				case "hypothesis":
 					ts.Hypotheses = append(ts.Hypotheses, cl)
+				case "immutable":
+					// immutable FIELD FUNC
+					f := strings.Fields(cl.Text)
+					if len(f) != 2 {
+						return fmt.Errorf("%s:%d: immutable FIELD FUNC", path, s.line)
+					}
+					ts.Immutable[f[0]] = f[1]
 				case "guarded_by":
 					// guarded_by mutex_: a, b
 					f := strings.SplitN(cl.Text, ":", 2)
